@@ -111,6 +111,10 @@ func runAsync(script []int, schedule []string) aRun {
 			}
 			want.Write(p)
 			_, err := rw.Write(p)
+			// io.Writer: "Write must not retain p": the caller reuses its buffer (io.Copy, bufio do)
+			for j := range p {
+				p[j] = 0xEE
+			}
 			log("ret W write(%d) err=%v", n, err)
 		}
 		s.yield("op:close")
@@ -341,6 +345,9 @@ func TestVerifC12Stress(t *testing.T) {
 			}
 			want.Write(p)
 			rw.Write(p)
+			for j := range p { // the caller's buffer is the caller's again once Write has returned
+				p[j] = 0xEE
+			}
 			if mode == 0 {
 				select { // wait until the storing side has taken something: writer exactly as fast as the reader
 				case <-taken:
